@@ -54,7 +54,11 @@ const Collector = "fee_collector"
 const IbcDenom = "ibc/27394FB092D2ECCD"
 const MixDenom = "uMixEd"
 
-var Denoms = []string{"frozen", IbcDenom, "uMixEd", "ubtc", "ufoo", "ukex", "xeth"}
+// LookAlikes: bank denominations that differ from a registered one ONLY IN CASE and are never
+// registered, blacklisted or whitelisted under that spelling by default; the accounts hold them.
+var LookAlikes = []string{"FROZEN", "UBTC", "UKEX", "ibc/27394fb092d2eccd", "umixed"}
+
+var Denoms = []string{"FROZEN", "UBTC", "UKEX", "frozen", IbcDenom, "ibc/27394fb092d2eccd", "uMixEd", "ubtc", "ufoo", "ukex", "umixed", "xeth"}
 
 type Acc struct {
 	Name string
@@ -1024,7 +1028,7 @@ func FreezeSweep(base func() *Cfg) []FreezeCase {
 	for sw := 0; sw < 4; sw++ {
 		for bl := 0; bl < 4; bl++ {
 			for wl := 0; wl < 4; wl++ {
-				for ti, tok := range []string{"ukex", "ubtc", "xeth", IbcDenom, MixDenom} {
+				for ti, tok := range []string{"ukex", "ubtc", "xeth", IbcDenom, MixDenom, "UBTC", "UKEX", "FROZEN"} {
 					c := base()
 					c.Tokens = []Tok{{"ukex", sdk.NewDec(1), true}, {"ubtc", sdk.NewDec(10), true}, {"xeth", sdk.NewDecWithPrec(1, 1), false}, {"frozen", sdk.NewDecWithPrec(1, 1), true},
 						{IbcDenom, sdk.NewDec(2), true}, {MixDenom, sdk.NewDecWithPrec(5, 1), false}}
@@ -1038,6 +1042,12 @@ func FreezeSweep(base func() *Cfg) []FreezeCase {
 						fee = sdk.NewInt64Coin(IbcDenom, 100)
 					case MixDenom:
 						fee = sdk.NewInt64Coin(MixDenom, 400)
+					case "UBTC": // unregistered look-alike of the fee-enabled ubtc (rate 10)
+						fee = sdk.NewInt64Coin("UBTC", 20)
+					case "UKEX": // unregistered look-alike of the native token
+						fee = sdk.NewInt64Coin("UKEX", 150)
+					case "FROZEN": // unregistered look-alike of the blacklistable token "frozen" (the sweep's other list entry)
+						fee = sdk.NewInt64Coin("FROZEN", 3000)
 					case "ubtc":
 						fee = sdk.NewInt64Coin("ubtc", 20)
 					case "xeth":
@@ -1050,4 +1060,56 @@ func FreezeSweep(base func() *Cfg) []FreezeCase {
 		}
 	}
 	return out
+}
+
+// ---------------------------------------------------------------- the denominations one case is about
+
+// Rel collects the denominations a case touches (fee, message coins, observed changes, the native
+// token); balances and balance comparisons are emitted for these only.
+type Rel map[string]bool
+
+func NewRel() Rel { return Rel{"ukex": true} }
+func (r Rel) AddCoins(cs []sdk.Coin) {
+	for _, c := range cs {
+		r[c.Denom] = true
+	}
+}
+func (r Rel) AddTx(t TxSpec) {
+	r.AddCoins(t.Fee)
+	for _, m := range t.Msgs {
+		r.AddCoins(m.Amt)
+		r.AddCoins(m.Reward)
+		for _, o := range m.Outs {
+			r.AddCoins(o.Amt)
+		}
+	}
+}
+func (r Rel) AddDeltas(d [][3]string) {
+	for _, x := range d {
+		r[x[1]] = true
+	}
+}
+func (r Rel) List() []string {
+	var out []string
+	for d := range r {
+		out = append(out, d)
+	}
+	sort.Strings(out)
+	return out
+}
+
+// BalsCoqFor: like BalsCoq, restricted to the denominations of rel.
+func BalsCoqFor(b map[string]sdk.Coins, rel Rel) string {
+	f := map[string]sdk.Coins{}
+	for n, cs := range b {
+		for _, c := range cs {
+			if rel[c.Denom] {
+				f[n] = append(f[n], c)
+			}
+		}
+		if _, ok := f[n]; !ok {
+			f[n] = sdk.Coins{}
+		}
+	}
+	return BalsCoq(f)
 }
